@@ -104,7 +104,8 @@ theorem zipB_mem {α β γ} [Inhabited α] [Inhabited β] (f : α → β → PyM
 
 /-! ## `tensor_zp_scale_from_min_max` -/
 
-/-- finite statistics: float32 / float64 arrays of one shape, every value within the bound -/
+/-- finite statistics: float32 / float64 / `exact` (integer tensors, python numbers) arrays of one shape, every value
+    within the bound -/
 structure StatFin (mn mx : FArr) : Prop where
   prMn : F3264 mn.pr
   prMx : F3264 mx.pr
